@@ -568,7 +568,8 @@ def run_shard(shard, acc):
 
 def promote(bs, acc):
     """All dtype pairs for array-array operators: the result dtype follows the documented promotion rules."""
-    keys = [k for k in T_DTYPES if A.DTYPES[k].kind in ('int', 'float') or k == 'bool']
+    # incl. pairs of equal width and signedness but different names (uintle16 / uint16 / uintbe16, intle32 / int32, uint1 / bool): the tie rule
+    keys = [k for k in T_DTYPES + ['uint16', 'int32', 'uintbe16', 'uint1'] if A.DTYPES[k].kind in ('int', 'float') or k == 'bool']
 
     def rank(k):
         d = A.DTYPES[k]
